@@ -3,10 +3,15 @@
    family (118 elements, 8 bracket aromatics, *, organic subset, 59 configuration spellings, H / H0-H9, charges -15..15
    in all three spellings, ring numbers 0-99, isotope and map 0-999 with leading zeros, 8 bond symbols).
    Driver level: everything the writer can print is accepted (C09); the reader never panics or loops (C06); the
-   verdict is a function of the string alone in the model.  The full equivalence with the documented BNF over all
-   strings is decided by evaluating an independent backtracking recogniser (Spec/Grammar.v) against the
-   implementation's verdict; it is not yet a theorem. *)
+   verdict is a function of the string alone in the model.  Whole reader, all strings: accepted iff a sentence of the declarative grammar of
+   Spec/Lang.v (both directions); the backtracking recogniser of Spec/Grammar.v is still evaluated against the
+   implementation's verdicts on every run. *)
 From Coq Require Import List NArith Bool.
+Require P.Proofs.LangFinal.
+Require Import P.Spec.Lang P.Model.Base P.Model.Reader.
+Strategy opaque [P.Generated.Trees.tree_symbol P.Generated.Trees.tree_organic P.Generated.Trees.tree_configuration
+  P.Generated.Trees.tree_charge P.Generated.Trees.tree_bond P.Generated.Trees.tree_rnum P.Generated.Trees.tree_hcount
+  P.Generated.Trees.tree_isotope P.Generated.Trees.tree_map].
 Require Import P.Generated.Enums P.Meta.Scan P.Spec.Values P.Spec.Reading P.Generated.Trees P.Checks.Reading_defs P.Proofs.Reading
   P.Spec.Events P.Spec.Normal P.Model.Base P.Model.Reader P.Model.Writer P.Proofs.BodyFacts P.Proofs.C09_Writer P.Proofs.C09_Final P.Proofs.ReaderSafe.
 
@@ -30,6 +35,21 @@ Proof. intros h Hc Hok. destruct (C09_inverse h Hc Hok) as [t [Hw Hr]]. exists t
 Theorem C04_reader_total : forall s : list N, fst (rd s) <> VPanic /\ fst (rd s) <> VFuel.
 Proof. exact P.Proofs.ReaderSafe.reader_safe. Qed.
 
+(* ---- the whole reader, every string: accepted exactly when the string is a sentence of the documented grammar.
+   [Lang] / [Smiles] (Spec/Lang.v) are declarative: inductive predicates over strings with token families as sets of
+   spellings, no longest-match or lookahead assumption.  Soundness is by induction over the reader; completeness is the
+   LL(1) argument (no spelling of a family can be extended by a character of its follow set, FIRST sets disjoint:
+   finite checks over the tables). *)
+Theorem C04_accepted_strings_are_sentences : forall s h, rd s = (VOk, h) -> Lang s.
+Proof. exact P.Proofs.LangFinal.C04_sound. Qed.
+Theorem C04_sentences_are_accepted : forall s, Lang s -> fst (rd s) = VOk.
+Proof. exact P.Proofs.LangFinal.C04_complete. Qed.
+Theorem C04_accepts_exactly_the_documented_productions : forall s, fst (rd s) = VOk <-> Smiles s.
+Proof. exact P.Proofs.LangFinal.C04_accepts_exactly_the_documented_productions. Qed.
+
 Print Assumptions C04_tokens_are_the_documented_families.
 Print Assumptions C04_every_written_history_is_accepted.
 Print Assumptions C04_reader_total.
+Print Assumptions C04_accepted_strings_are_sentences.
+Print Assumptions C04_sentences_are_accepted.
+Print Assumptions C04_accepts_exactly_the_documented_productions.
